@@ -87,6 +87,7 @@ def run(ctx) -> None:
     ctx.rule("R9", "a push / fetch command runs only with a non-empty remote")
     ctx.rule("R11", "option declarations: --fetch/--no-fetch is an on/off flag that is on by default; --commit/--tag-commit/--push are unset unless given (the configuration decides)")
     shapes.cli_option_rule(ctx, "R11", ["--fetch/--no-fetch", "--commit/--no-commit", "--tag-commit/--no-tag-commit", "--push/--no-push"])
+    dirty_check_handler_rule(ctx, "R3")
     ctx.rule("R12", "contradictory flags are rejected before anything happens: --date together with --pin-date ends in an exit, not in a log line")
     shapes.errors_are_fatal(ctx, "R12", "cli._validate_date", 2)
     ctx.rule("R10", "the tag step is the configured one: an (empty) configured tag message reaches the tag command as configured (C12's configured-message rule)")
@@ -172,12 +173,23 @@ def run(ctx) -> None:
         pcx = ip.pc(s_.fn.fq)
         nid_ = cfgs.get(s_.fn.fq).node_containing(s_.node)
         post = pcx.call_post.get(nid_)
-        ctx.require(post is not None, f"step '{step}': the hook's exit status is not checked (no post-condition imported from hooks.run)")
+        if post is None:
+            # hooks.run can return after a failed hook: then the caller has to look at what it returns
+            tested = shapes.outcome_edges_of_call(cfgs.get(s_.fn.fq), s_.fn, s_.node, False)
+            if tested is None:
+                ctx.bad("R3", f"{s_.fn.fq}: the result of the {step} is ignored", f"`{unparse(s_.node)[:70]}`: hooks.run returns normally after a failed hook (it no longer ends the process) and this "
+                        f"call site does not test what it returns: commit / tag / push go on after the {step} failed and the exit status is 0", loc=s_.fn.loc(s_.node),
+                        witness={"hook": "exits 3"}, what=f"{step}: a failed hook stops the update")
+                return BF.true()
+            deferred.append(f"step '{step}': the hook's exit status is tested by the caller, not by hooks.run (the specification formula has no atom for that)")
+            return BF.true()
         hits = [a for a in post.atoms if "returncode" in a]
         ctx.require(len(hits) == 1, f"specification atom '{what}' matched {hits}")
         return BF.var(hits[0])
+    deferred: T.List[str] = []
     OK1 = hook_ok("pre-hook", "pre-hook exit status 0")
     OK2 = hook_ok("post-hook", "post-hook exit status 0")
+    ctx.require(not deferred, deferred[0] if deferred else "")
     local = [a for a in all_atoms if a not in set().union(*(x.atoms for x in (C, V, T_, P, PRE, POST, A, D, DP, OK1, OK2)))]
     # atoms that are choices inside a step (annotated vs light tag, git vs hg, remote present, engine) are
     # existentially projected: the step is the union of its sites
@@ -553,9 +565,9 @@ def run(ctx) -> None:
                 # fetch: guarded by the truthiness of get_remote() itself
                 n_remote += 1
                 truthy = any("get_remote()" in a and r.implies(BF.var(a)) for a in r.atoms)
-            ctx.check("R9", truthy or not maybe_empty, f"{fq_} L{s_.node.lineno}: runs only with a non-empty remote",
+            ctx.check("R9", truthy, f"{fq_} L{s_.node.lineno}: runs only with a non-empty remote",
                       f"{fq_}: the {s_.detail.get('cmd')} command can run with an empty remote",
-                      f"the site is reached when {r.drop_unused().to_dnf()} and get_remote() can return an empty string (`{unparse(maybe_empty[0].ast) if maybe_empty else ''}`): "
+                      f"the site is reached when {r.drop_unused().to_dnf()} although get_remote() can be None" + (f" or an empty string (`{unparse(maybe_empty[0].ast)}`)" if maybe_empty else "") + ": "
                       f"without a configured remote `git push  --follow-tags <tag> HEAD` / `hg push` is issued", loc=fn_.loc(s_.node))
     ctx.floor("R9", "push / fetch sites", n_remote, 3)
 
@@ -634,3 +646,29 @@ def remote_lookup_rule(ctx, rule: str):
               "no return hands on the `show_remotes` output under a non-empty test: with push enabled and a remote configured the push step is silently skipped",
               loc=gr.loc())
     return maybe_empty
+
+
+def dirty_check_handler_rule(ctx, rule: str) -> None:
+    """The dirty check is the first step: a handler in cli._update whose try body holds the call of vcs.assert_not_dirty (a VCS
+    command that can fail) must not complete normally - otherwise a failing `git status` is logged and the files are rewritten,
+    committed and tagged anyway."""
+    prog, cfgs = ctx.prog, ctx.cfgs
+    upd = prog.function("cli._update")
+    cfg = cfgs.get(upd.fq)
+    calls = shapes.find_calls(prog, upd, "vcs.assert_not_dirty")
+    ctx.floor(rule, "dirty check calls in cli._update", len(calls), 1)
+    for c in calls:
+        nid = cfg.node_containing(c)
+        for hid in shapes.handlers_catching(cfg, ["CalledProcessError", "OSError"]):
+            if nid not in shapes.try_body_nodes(cfg, hid):
+                continue
+            hn = cfg.nodes[hid]
+            types_ = hn.extra.get("types")
+            from sa.cfg import handler_can_catch
+            if not handler_can_catch(types_, "CalledProcessError"):
+                continue          # `except OSError` around the lookup: no VCS installed, nothing to check
+            oc = shapes.handler_outcome(cfg, hid)["outcomes"]
+            ctx.check(rule, "fallthrough" not in oc, f"cli._update: handler `except {types_}` around the dirty check ends in {sorted(oc)}",
+                      "cli._update: a failing dirty check is swallowed and the update goes on",
+                      f"handler `except {types_}` at L{hn.lineno} guards `{unparse(c)[:60]}` and can complete normally: when `git status` fails the files are rewritten, committed and tagged, exit status 0",
+                      loc=upd.loc(hn.ast), witness={"git status": "exits 128"})
